@@ -142,14 +142,14 @@ func (u *ModelUpdates) AddRowUpdate(dbModel model.DatabaseModel, table, uuid str
 		}
 	case ru.Old != nil && ru.New != nil:
 		old := current
-		new := model.Clone(current)
-		info, err := dbModel.NewModelInfo(new)
+		// the new row has the contents of all the monitored columns, a
+		// column that is not present has its default value
+		new, err := model.CreateModel(dbModel, table, ru.New, uuid)
 		if err != nil {
 			return err
 		}
-		changed, err := updateModel(dbModel, table, info, ru.New, nil)
-		if !changed || err != nil {
-			return err
+		if model.Equal(old, new) {
+			return nil
 		}
 		err = u.addUpdate(dbModel, table, uuid, modelUpdate{old: old, new: new, rowUpdate2: &rowUpdate2{Old: ru.Old, New: ru.New}})
 		if err != nil {
